@@ -1107,6 +1107,17 @@ func genPlanC16(rt *rapid.T) c16Plan {
 		p.PauseUs = rapid.IntRange(0, 3000).Draw(rt, "close-after")
 	default:
 		p.Frames = genFrames(rt, rapid.IntRange(1, 40).Draw(rt, "frames"), 1024)
+		if mode == "tcp-send" && rapid.IntRange(0, 1).Draw(rt, "large-frame") == 0 {
+			// frame sizes up to the largest encodable frame: the 16-bit total length ends at 65535 (header included)
+			total := rapid.SampledFrom([]int{4096, 8193, 32768, 65000, 65528, 65529, 65530, 65531, 65532, 65533, 65534, 65535}).Draw(rt, "large-total")
+			b := make([]byte, total)
+			for i := range b {
+				b[i] = byte(i*13 + total)
+			}
+			b[0], b[1], b[2], b[3], b[4], b[5] = 6, 0x10, 0x0f, 0x42, byte(total>>8), byte(total)
+			at := rapid.IntRange(0, len(p.Frames)).Draw(rt, "large-at")
+			p.Frames = append(p.Frames[:at], append([]string{hex.EncodeToString(b)}, p.Frames[at:]...)...)
+		}
 		p.Senders = rapid.IntRange(1, 8).Draw(rt, "senders")
 	}
 	return p
@@ -1253,6 +1264,18 @@ func TestC15Sock(t *testing.T) {
 		// round) in a shared buffer shows
 		n := rapid.IntRange(2, 40).Draw(rt, "frames")
 		p.Frames = genFrames(rt, n, 1024)
+		if p.Mode == "tcp-send" && rapid.IntRange(0, 2).Draw(rt, "large-frame") == 0 {
+			// frame sizes up to the largest encodable frame: the 16-bit total length ends at 65535 (header included)
+			total := rapid.SampledFrom([]int{4096, 8193, 32768, 65000, 65528, 65529, 65530, 65531, 65532, 65533, 65534, 65535}).Draw(rt, "large-total")
+			b := make([]byte, total)
+			for i := range b {
+				b[i] = byte(i*13 + total)
+			}
+			b[0], b[1], b[2], b[3], b[4], b[5] = 6, 0x10, 0x0f, 0x42, byte(total>>8), byte(total)
+			at := rapid.IntRange(0, len(p.Frames)).Draw(rt, "large-at")
+			p.Frames = append(p.Frames[:at], append([]string{hex.EncodeToString(b)}, p.Frames[at:]...)...)
+			rec.Class(fmt.Sprintf("tcp-send large frame of %d octets", total))
+		}
 		p.Senders = rapid.IntRange(1, 8).Draw(rt, "senders")
 		if p.Mode == "router-send" && p.Senders > 6 {
 			p.Senders = 6
